@@ -19,8 +19,13 @@ TIMEOUT_S = 600.0
 RULE = ("one run = simulated machine (os.cpu_count incl. None, affinity mask, LOKY_MAX_CPU_COUNT, cgroup v1/v2 quota) "
         "x n_jobs in [-2c-1, 2c+1] x backend flavour (T, M, L, G) x task-duration pattern x nesting shape up to depth 3 "
         "(default or explicit inner backends) x seeded schedule; distinct = digest of (thread role, event kind) "
-        "sequence; non-trivial = at least two tasks overlapped in virtual time or a nested call ran")
-REAL_CODE = ["joblib.parallel.Parallel", "effective_n_jobs of all backends", "ParallelBackendBase.get_nested_backend",
+        "sequence; non-trivial = at least two tasks overlapped in virtual time or a nested call ran.  Tier 2 (E4): histories "
+        "of 2-5 loky calls (n_jobs 1..6 / negative, sizes going up and down, executors that never get a task, with-blocks, "
+        "idle gaps up to 400 s > idle-worker timeout, same or different worker environment) on the real reusable executor "
+        "over the simulated OS: tasks running at once and worker processes alive <= resolved n_jobs of the call")
+REAL_CODE = ["tier 2: LokyBackend, MemmappingExecutor, loky reusable executor (_resize, reuse / re-creation), ProcessPoolExecutor, "
+             "manager thread, queues, _process_worker (idle timeout) on the simulated OS",
+             "joblib.parallel.Parallel", "effective_n_jobs of all backends", "ParallelBackendBase.get_nested_backend",
              "BatchedCalls.__call__ (nested backend context)", "loky.backend.context.cpu_count/_cpu_count_user/"
              "_cpu_count_cgroup/_cpu_count_affinity"]
 STUBBED = ["pools/executors (E2): a stub pool of n slots cannot run more than n tasks, so the concurrency bound is "
@@ -108,9 +113,29 @@ def gen_case(rng):
     return case
 
 
+N_E4 = {"quick": 500, "thorough": 20000}
+
+
+def gen_e4(rng):
+    """History of loky calls on the REAL reusable executor (E4): sizes going up and down, executors that never get
+    a task, idle gaps, with-blocks -- the number of tasks running at once is bounded by the n_jobs of the call."""
+    steps = []
+    fixed_inner = rng.random() < 0.6          # same worker environment for every size: the executor is resized, not re-created
+    for _ in range(rng.randint(2, 5)):
+        kind = rng.choice(["call", "call", "call", "empty", "with_nocall", "with_calls"])
+        nj = rng.choice([1, 2, 2, 3, 4, 4, 5, 6, -1, -2])
+        n = rng.choice([2, 4, 7, 10, 14])
+        steps.append({"kind": kind, "n_jobs": nj, "n": n, "dur": [rng.choice([0.0, 0.01, 0.2, 0.2, 1.0]) for _ in range(n)],
+                      "gap": rng.choice([0.0, 0.0, 0.05, 2.0, 400.0])})
+    return {"e4": True, "steps": steps, "fixed_inner": fixed_inner, "batch_size": rng.choice([1, 1, 2, "auto"]),
+            "strategy": dict(rng.choice(ds.STRATEGIES), **{"p_jump": 0.0}), "sched_seed": rng.randrange(1 << 31)}
+
+
 def plan(tier, seed):
     for i in range(hz_runs(N_RUNS, tier)):
         yield gen_case(random.Random(H(seed, PROP, i)))
+    for i in range(hz_runs(N_E4, tier)):
+        yield gen_e4(random.Random(H(seed, PROP, "e4", i)))
 
 
 def install_machine(m):
@@ -185,7 +210,125 @@ def run_nested(w, c, i, nest, path=()):
     w.probes["nested_call_at_depth_%d" % w.depth.get(me.name, 0)] += 1
 
 
+W4 = None
+
+
+def e4_work(c, i, dur):
+    s = ds.S
+    me = s.me()
+    w = W4
+    w["running"] += 1
+    w["hi"][c] = max(w["hi"].get(c, 0), w["running"])
+    w["alive_hi"][c] = max(w["alive_hi"].get(c, 0), sum(1 for p_ in w["world"].procs if p_.alive))
+    w["pids"].setdefault(c, set()).add(me.proc.pid if me.proc else None)
+    if dur:
+        s.sleep(dur)
+    else:
+        s.yp("task")
+    w["running"] -= 1
+    return (c, i)
+
+
+def run_e4(case):
+    """Tier 2: the real LokyBackend / MemmappingExecutor / reusable executor / ProcessPoolExecutor / _process_worker on
+    the simulated OS of E4 (4 usable CPUs)."""
+    global W4
+    import tempfile, shutil
+    from sim import simproc as sp
+    from joblib import Parallel, delayed, parallel_config
+    warnings.simplefilter("ignore")
+    __import__("logging").disable(50)
+    tmp = tempfile.mkdtemp(prefix="c15_", dir="/dev/shm")
+    os.environ["JOBLIB_TEMP_FOLDER"] = tmp
+    gaps = sum(st["gap"] for st in case["steps"])
+    s = ds.run_sim(case["sched_seed"], None, decisions=case.get("decisions"), strategy=case.get("strategy"),
+                   trace_files=sp.TRACE_FILES, max_steps=case.get("max_steps", 600000),
+                   max_time=150.0 + 2 * gaps + 2 * sum(sum(st["dur"]) for st in case["steps"]), keep_log=case.get("keep_log", 0))
+    world = sp.World()
+    sp.install(s, world)
+    W4 = {"running": 0, "hi": {}, "alive_hi": {}, "pids": {}, "world": world}
+    recs = []
+
+    def one_call(p, c, st, rec):
+        try:
+            r = p(delayed(e4_work)(c, i, st["dur"][i]) for i in range(st["n"]))
+            rec["outcome"] = "ok" if r == [(c, i) for i in range(st["n"])] else "WRONG:%s" % (r[:6],)
+        except BaseException as e:  # noqa
+            rec["outcome"] = "EXC:%s:%s" % (type(e).__name__, str(e)[:120])
+
+    def main():
+        c = 0
+        for st in case["steps"]:
+            kw = dict(n_jobs=st["n_jobs"], backend="loky", batch_size=case["batch_size"])
+            cm = parallel_config(backend="loky", inner_max_num_threads=1) if case["fixed_inner"] else None
+            if cm is not None:
+                cm.__enter__()
+                kw.pop("backend")
+            try:
+                exp = st["n_jobs"] if st["n_jobs"] > 0 else max(4 + 1 + st["n_jobs"], 1)
+                if st["kind"] == "call":
+                    rec = {"c": c, "exp": exp, "kind": st["kind"]}; recs.append(rec)
+                    one_call(Parallel(**kw), c, st, rec); c += 1
+                elif st["kind"] == "empty":
+                    try:
+                        Parallel(**kw)([])
+                    except BaseException as e:  # noqa
+                        recs.append({"c": None, "exp": exp, "kind": "empty", "outcome": "EXC:%s" % type(e).__name__})
+                elif st["kind"] == "with_nocall":
+                    with Parallel(**kw):
+                        s.yp("with_nocall")
+                else:
+                    with Parallel(**kw) as p:
+                        for _ in range(2):
+                            rec = {"c": c, "exp": exp, "kind": st["kind"]}; recs.append(rec)
+                            one_call(p, c, st, rec); c += 1
+            finally:
+                if cm is not None:
+                    cm.__exit__(None, None, None)
+            if st["gap"]:
+                s.sleep(st["gap"])          # 400 s: longer than the idle-worker timeout (workers exit, next call respawns)
+        s.sleep(2.0)
+    s.run(main)
+    shutil.rmtree(tmp, ignore_errors=True)
+    verdict = None
+    if s.failed is not None:
+        verdict = V("hang", "%s; calls %s; %s" % (s.failed, [(r_.get("c"), r_.get("outcome")) for r_ in recs], str(getattr(s, "failed_stacks", []))[:600]),
+                    engine="hang", tier="real_loky_executor")
+    elif any(n == "main" for n, _, _ in s.thread_errors):
+        e = [x for x in s.thread_errors if x[0] == "main"][0]
+        return {"verdict": None, "harness_error": "main: " + e[1] + e[2][-600:]}
+    else:
+        for r_ in recs:
+            c = r_.get("c")
+            if r_.get("outcome") != "ok":
+                verdict = V("unexpected_exception", "loky call %s (%s, n_jobs resolves to %d): %s" % (c, r_["kind"], r_["exp"], r_.get("outcome")),
+                            type=str(r_.get("outcome")).split(":")[1] if ":" in str(r_.get("outcome")) else "?", tier="real_loky_executor")
+                break
+            if W4["hi"].get(c, 0) > r_["exp"]:
+                verdict = V("too_many_running", "loky call %d of history %s: %d tasks ran simultaneously in %d worker processes, n_jobs "
+                            "resolves to %d" % (c, [(st["kind"], st["n_jobs"]) for st in case["steps"]], W4["hi"][c], len(W4["pids"][c]), r_["exp"]),
+                            tier="real_loky_executor")
+                break
+            if r_["exp"] > 1 and W4["alive_hi"].get(c, 0) > r_["exp"]:     # (n_jobs=1 runs in the caller and leaves idle workers alone)
+                verdict = V("too_many_workers", "loky call %d of history %s: %d worker processes alive while its tasks ran, n_jobs "
+                            "resolves to %d" % (c, [(st["kind"], st["n_jobs"]) for st in case["steps"]], W4["alive_hi"][c], r_["exp"]),
+                            tier="real_loky_executor")
+                break
+    res = {"verdict": verdict, "digest": s.h.hexdigest()[:24], "shape": s.hs.hexdigest()[:16], "steps": s.steps,
+           "switches": s.switches, "sim_time": round(s.now, 3),
+           "faults": {k: v_ for k, v_ in {"idle_gap_beyond_worker_timeout": sum(1 for st in case["steps"] if st["gap"] >= 300)}.items() if v_},
+           "probes": {"real_loky_executor_history": 1, "executor_never_given_a_task": sum(1 for st in case["steps"] if st["kind"] in ("empty", "with_nocall")),
+                      "worker_processes_spawned": len(world.procs)},
+           "nontrivial": any(v_ > 1 for v_ in W4["hi"].values()),
+           "sample": {"steps": [(st["kind"], st["n_jobs"], st["n"]) for st in case["steps"]], "hi": sorted(W4["hi"].items())[:6]}}
+    if verdict is not None:
+        res["decisions"] = s.decisions
+    return res
+
+
 def run_case(case):
+    if case.get("e4"):
+        return run_e4(case)
     m = case["machine"]
     c = usable_cpus(m)
     exp = resolve(case["n_jobs"], c)
@@ -208,8 +351,13 @@ def run_case(case):
         jb.ParallelBackendBase.in_main_thread = staticmethod(
             lambda: True if (s.me() is not None and s.me().name == "main") or _is_proc_worker(("lw", "mw")) else orig_imt())
         real_cp = _mp.current_process
+        def raw_count():
+            # multiprocessing.cpu_count: the machine's CPUs, blind to affinity / cgroup / LOKY_MAX_CPU_COUNT
+            if m["os"] is None:
+                raise NotImplementedError("cannot determine number of cpus")
+            return m["os"]
         jb.mp = _types.SimpleNamespace(current_process=lambda: _types.SimpleNamespace(daemon=True) if _is_proc_worker(("mw",))
-                                       else real_cp())
+                                       else real_cp(), cpu_count=raw_count)
     # keep the real joblib.parallel.cpu_count (install_seams replaces it): restore after seams
     import joblib.parallel as jp
     real_cpu_count = jp.cpu_count
@@ -296,6 +444,17 @@ def oracle(w, s, case, c, exp):
 
 
 def shrink(case):
+    if case.get("e4"):
+        st = case["steps"]
+        for k in range(len(st)):
+            if len(st) > 1:
+                yield dict(case, steps=st[:k] + st[k + 1:])
+        for k, x in enumerate(st):
+            if x["gap"]:
+                yield dict(case, steps=st[:k] + [dict(x, gap=0.0)] + st[k + 1:])
+            if x["n"] > 2:
+                yield dict(case, steps=st[:k] + [dict(x, n=x["n"] // 2, dur=x["dur"][:x["n"] // 2])] + st[k + 1:])
+        return
     call = case["calls"][0]
     n = call["n"]
     for m in sorted({n // 2, n - 1}):
